@@ -1463,6 +1463,8 @@ func runC03(r *Run, rng *Rng, tier string) error {
 		"x layerings (single, overlay, two sibling bases, chain of 3, tree of 3 levels) x namePrefix/nameSuffix/namespace per layer x " +
 		"configMap/secret generators with and without hash; synthetic resource maps: 3-9 resources with hand-made rename histories over " +
 		"the names x/y/z, namespaces, prefix/suffix lists. non-trivial = some document changed (ref/syn) or some layer renames (book); distinct by hash of the case term"
+	// NewRng(seed) and NewRng(seed+1) are the same stream shifted by one step: restart from a mixed output
+	rng = rng.Fork()
 	// the case terms are large (whole documents): small shards keep the Coq front end parallel
 	r.shard = 30
 	rules, err := krusty.VerifC03MergedDefaultRules()
